@@ -55,6 +55,17 @@ def header_stream(ctx, g, body):
     for n in range(8):
         cases.append(("short-%d" % n, good[:n], "ValueError"))
     cases.append(("lowercase", b"gtirb\0\0" + bytes([ver]) + body, "ValueError"))
+    # the magic somewhere else in the header than in bytes 0-4 (a containment or suffix test instead of a prefix test), permuted,
+    # or interleaved -- with the version byte where a lenient reader would look for it
+    V = bytes([ver])
+    for k, pre in enumerate((b"\0", b"\0\0", b"x", b"G", b" ", b"\n", b"\xef\xbb", b"GT")):
+        cases.append(("magic-shifted%d" % k, (pre + b"GTIRB\0\0")[:7] + V + body, "ValueError"))
+        cases.append(("magic-shifted-long%d" % k, pre + b"GTIRB\0\0" + V + body, "ValueError"))
+    for k, mg in enumerate((b"TIRBG", b"BGTIR", b"BRITG", b"GTIBR", b"TGIRB", b"GTRIB", b"GTIR\0", b"\0TIRB", b"GTIRb", b"GTIRC")):
+        cases.append(("magic-permuted%d" % k, mg + b"\0\0" + V + body, "ValueError"))
+        cases.append(("magic-permuted-then-magic%d" % k, mg + b"GTIRB\0\0" + V + body, "ValueError"))
+    cases.append(("magic-after-version", V + b"\0\0GTIRB" + body, "ValueError"))
+    cases.append(("magic-in-body-only", b"\0" * 7 + V + b"GTIRB\0\0" + V + body, "ValueError"))
     cases.append(("reserved-nonzero", b"GTIRB\x01\xff" + bytes([ver]) + body, None))      # bytes 5-6 are reserved: either outcome, but coherent
     cases.append(("header-only", good, None))
     for sig, bs, want in cases:
